@@ -8,9 +8,9 @@ MATCH = r"match_node_with_env"
 OPS_DECIDED_C04 = "frame law on trait Matcher (None => env unchanged; Some => env exactly the reference env) proved for &T, MatchAll, MatchNone, Op, Or, Not, And, All, Any"
 PROPS = {
     "C01": {
-        "units": [("ops", KINDS), ("rule_core", KINDS + "|do_match|with_"), ("rule", KINDS), ("combined", r"CombinedScan|lemma"), ("pattern", KINDS + "|match_node_impl|match_node_non_recursive")],
+        "units": [("ops", KINDS), ("rule_core", KINDS + "|do_match|with_"), ("rule", KINDS), ("combined", r"CombinedScan|lemma"), ("pattern", KINDS + "|match_node_impl|match_node_non_recursive"), ("atomic", KINDS), "find_all"],
         "kani": [],
-        "decided": ["potential_kinds of every matcher in ops.rs/matcher.rs over-approximates the kinds of nodes it can match (trait-level ensures); All/Any cached kinds sound (type invariant established by new via compute_kinds)"],
+        "decided": ["FindAllNodes::next returns the first remaining node (pre-order) that the matcher matches when tried from an empty environment: the kind filter drops nothing", "potential_kinds of every matcher in ops.rs/matcher.rs over-approximates the kinds of nodes it can match (trait-level ensures); All/Any cached kinds sound (type invariant established by new via compute_kinds)"],
         "not_decided": ["run.rs/scan.rs wiring, injected languages, ordering across files"],
         "assumptions": [],
     },
@@ -25,14 +25,14 @@ PROPS = {
         "assumptions": ["MetaVarEnv::insert / insert_multi obey the statements in prelude/env_ops.rs"],
     },
     "C04": {
-        "units": [("ops", MATCH), ("rule_core", MATCH + "|do_match"), ("rule", MATCH + "|match_and_add_label"), ("pattern", MATCH), "meta_var"],
+        "units": [("ops", MATCH), ("rule_core", MATCH + "|do_match"), ("rule", MATCH + "|match_and_add_label"), ("pattern", MATCH), "meta_var", ("atomic", MATCH)],
         "kani": [],
         "decided": [OPS_DECIDED_C04, "MetaVarEnv::insert / insert_multi bind iff every earlier occurrence is structurally identical (named nodes pairwise for $$$), and change nothing otherwise; match_variable / match_multi_var decide exactly that", "Pattern::match_node_with_env commits bindings only when the pattern matches (scratch Cow)"],
         "not_decided": ["relational rules / ReferentRule / StopBy::find (closures capturing &mut env): frame assumed"],
         "assumptions": [],
     },
     "C05": {
-        "units": [("ops", MATCH), ("rule", MATCH + "|match_and_add_label"), "nth_child"],
+        "units": [("ops", MATCH), ("rule", MATCH + "|match_and_add_label"), "nth_child", ("atomic", MATCH + "|try_new|::new$")],
         "kani": [
                  K("config", "numeric_position_exact", "numeric nthChild position selects exactly that 1-based index; values beyond i32 are rejected, not truncated", complete=True),
                  K("config", "parse_an_b_len4", "parse_an_b vs reference An+B grammar", bound="strings over {9,1,n,+,-,space}, length <= 4"),
@@ -51,6 +51,18 @@ PROPS = {
                     "String::accept_edit: result == old[..p] ++ inserted ++ old[p+d..] (every byte outside the range preserved)"],
         "not_decided": ["UTF-8 validity / char boundaries of node ranges (tree-sitter), expand_start/expand_end (closures)", "rewriters (transform/rewrite.rs), interactive apply_rewrite"],
         "assumptions": ["node ranges lie on char boundaries and inside the document (T-node)"],
+    },
+    "C07": {
+        "units": [],
+        "kani": [K("core", "split_first_meta_var_len5", "fix-template variable scanner vs the spelling table ($A/$$A single, $$$A multi, longest [A-Z_0-9]* name, digit-first/lower-case/lone sigils literal)", bound="strings over {$,A,a,_,1,space}, length <= 5"),
+                 K("core", "split_first_meta_var_transform_len4", "same with a transform key", bound="length <= 4"),
+                 K("core", "create_template_len4", "create_template partitions the template exactly (fragments ++ spellings == template) and records the indentation in front of each slot", bound="templates over {$,A,space,newline,a}, length <= 4"),
+                 K("core", "get_indent_at_offset_len8", "indentation at an offset = run of SPACES after the last line break (tabs are text)", bound="bytes over {space,newline,a,tab}, length <= 8 (< MAX_LOOK_AHEAD)"),
+                 K("core", "extract_reinsert_identity_len4", "re-inserting an extracted range at its own indentation is the identity (self-rewrite is a no-op)", bound="text <= 4 bytes over {space,newline,a,tab}, every sub-range"),
+                 K("core", "indent_lines_shift_len4", "continuation lines keep their indentation relative to the first line, shifted from the source indent to the insertion indent", bound="lines <= 4 bytes, indents <= 1", tier="thorough")],
+        "decided": ["template scanner and indentation arithmetic, for the stated bounds only"],
+        "not_decided": ["replace_fixer / maybe_get_var (need a Node): substitution of captured text rests on T-node get_range", "transformation string_case / substring (planned)"],
+        "assumptions": [],
     },
     "C08": {
         "units": ["replacer", ("fixer", r"get_replaced_range|generate_replacement"), "cli_print"],
@@ -101,6 +113,13 @@ PROPS = {
         "not_decided": ["globset semantics, directory walk, language detection tables, clap parsing, exit status accumulation (scan.rs), get_rule_from_lang (iterator adapters)"],
         "assumptions": ["L instantiated with a concrete language tag (R6)"],
     },
+    "C16": {
+        "units": [("source", r"get_char_column")],
+        "kani": [],
+        "decided": ["String::get_char_column(offset) == number of UTF-8 lead bytes between the previous line break and the offset, for every text and offset"],
+        "not_decided": ["display_context line slicing, JSON separators (write!/serde_json), charCount, MatchMerger"],
+        "assumptions": ["offset lies on a char boundary (tree-sitter node ranges)"],
+    },
     "C18": {
         "units": ["cli_print"],
         "kani": [K("cli", "apply_rewrite_two_edits_len5", "apply_rewrite == old content with the accepted ranges substituted", bound="old text <= 5 bytes over {a,b,newline}, up to two ordered disjoint edits, replacements <= 2 bytes")],
@@ -108,11 +127,21 @@ PROPS = {
         "not_decided": ["process_diffs_interactive bookkeeping (generic over Printer; closures), files on disk, repeated invocations, injected languages"],
         "assumptions": ["String::from_utf8 on replacement bytes succeeds (UTF-8 sources and templates)"],
     },
+    "C19": {
+        "units": [("source", r"get_char_column|position_for_offset")],
+        "kani": [],
+        "decided": ["line/column positions: position_for_offset == (line breaks before, bytes since the last one); get_char_column == characters since the last line break"],
+        "not_decided": ["children/parent/sibling/ancestor consistency and traversal orders: tree-sitter cursor behind FFI (would be axioms, not proofs)"],
+        "assumptions": [],
+    },
     "C20": {
-        "units": [],
         "kani": [K("core", "extract_meta_var_len4", "extract_meta_var over {$,A,_,1,a}^<=4 against the spelling table of the property", bound="strings over {$,A,_,1,a}, length <= 4"),
-                 K("core", "extract_meta_var_len6", "same, length <= 6", bound="strings over {$,A,_,1,a}, length <= 6", tier="thorough")],
-        "decided": ["extract_meta_var spelling table"],
+                 K("core", "extract_meta_var_len6", "same, length <= 6", bound="strings over {$,A,_,1,a}, length <= 6", tier="thorough"),
+                 K("core", "split_first_meta_var_len5", "fix-template variable scanner vs the spelling table", bound="strings over {$,A,a,_,1,space}, length <= 5"),
+                 K("config", "parse_an_b_len4", "parse_an_b vs reference An+B grammar", bound="strings over {9,1,n,+,-,space}, length <= 4"),
+                 K("config", "numeric_position_exact", "numeric nthChild position", complete=True)],
+        "units": ["nth_child"],
+        "decided": ["extract_meta_var spelling table", "is_matched <=> exists n >= 0. i = A*n + B (unbounded, Verus)", "template variable scanner"],
         "not_decided": ["the hole appears in the parsed pattern tree of each of the 23 languages (needs the C parsers)"],
         "assumptions": [],
     },
